@@ -1,146 +1,478 @@
 """C18 — CLI status, diagnostics and written files are consistent and well-located."""
 import harness
-from facts import norm, call_name, short, subnodes, lit_value, matches_on, arm_variants, peel_ty, str_lits_in
+from facts import (norm, call_name, short, subnodes, lit_value, matches_on, arm_variants, peel_ty, str_lits_in, field_reads,
+                   AnchorMissing)
 from prov import Prov, has_field, has_call
-from templates import enclosing_contexts
+from templates import enclosing_contexts, inlined, scope_fns, _contains
 
 CLI = "nitrogql_cli::"
+OUT = CLI + "output::CliOutput"
 WRITE_APIS = ("std::fs::write", "std::fs::File::create", "std::fs::create_dir_all", "std::fs::create_dir",
               "std::fs::OpenOptions", "std::fs::remove_file", "std::fs::remove_dir", "std::fs::remove_dir_all",
               "std::fs::rename", "std::fs::copy", "std::fs::File::options", "std::fs::File::create_new",
               "std::fs::set_permissions", "std::fs::hard_link", "std::os::unix::fs::symlink")
+# the APIs that create/overwrite one file's content (one `generated_file` report is due per such call)
+FILE_CREATE = ("std::fs::write", "std::fs::File::create", "std::fs::File::create_new", "std::fs::OpenOptions::open")
 
 
-def is_tail_err(block_or_expr):
-    """does the expression evaluate to `Err(..)` (tail of a block, possibly `.into()`-wrapped)"""
-    e = block_or_expr
+# ------------------------------------------------------------------------------------------------------------- helpers
+def is_out(adt):
+    return (norm(adt) or "").endswith("::CliOutput")
+
+
+def _live(f):
+    return not f.derived and "::tests" not in f.path
+
+
+def role_fn(P, name, role, what):
+    """the function an anchor names; when it was renamed / turned into a method, the unique non-test function playing the same
+    role, else AnchorMissing (-> the rule is UNDECIDED)"""
+    f = P.fn(name, required=False)
+    if f is not None:
+        return f
+    cands = [g for g in P.fns.values() if _live(g) and g.kind in ("Fn", "AssocFn") and role(g)]
+    if len(cands) == 1:
+        return cands[0]
+    raise AnchorMissing("function `%s` (%s) not found; %d functions play that role" % (name, what, len(cands)))
+
+
+def only_via(P, path, gates, _seen=None):
+    """every call chain (over non-test workspace callers) that reaches `path` passes through a function of `gates`: walking the
+    call graph backwards from `path` without crossing a gate never arrives at a function that nobody calls (an entry point)"""
+    if path in gates:
+        return True
+    seen, todo = set(), [path]
+    while todo:
+        p = todo.pop()
+        if p in seen or p in gates:
+            continue
+        seen.add(p)
+        callers = [c for c in P.callers_of(p) if "::tests" not in c and not P.fns[c].derived and c != p]
+        if not callers:
+            return False
+        todo.extend(callers)
+    return True
+
+
+def tail_kind(e):
+    """what a block/expression evaluates to: "err" (`Err(..)`, possibly through `return`), "ok" (`Ok(..)`), or "other" """
     while e is not None:
         k = e.get("k")
         if k == "BlockExpr":
-            e = e["b"].get("tail")
+            b = e["b"]
+            if b.get("tail") is None:
+                last = b["stmts"][-1] if b.get("stmts") else None
+                # `return Err(..);` as the last statement
+                while last is not None and last.get("k") in ("Semi", "ExprStmt", "Stmt") and "e" in last:
+                    last = last["e"]
+                e = last
+            else:
+                e = b["tail"]
         elif k == "Block":
-            e = e.get("tail")
+            e = e.get("tail") or (e["stmts"][-1] if e.get("stmts") else None)
+        elif k == "Ret":
+            e = e.get("e")
         elif k == "Call":
-            return (call_name(e) or "").endswith("Result::Err")
-        elif k in ("DropTemps", "Use"):
+            c = call_name(e) or ""
+            if c.endswith("Result::Err"):
+                return "err"
+            if c.endswith("Result::Ok"):
+                return "ok"
+            return "other"
+        elif k == "MethodCall" and e.get("method") in ("into", "map_err") and e.get("recv") is not None:
+            e = e["recv"]
+        elif k in ("DropTemps", "Use", "Semi", "ExprStmt", "Stmt") and "e" in e:
             e = e.get("e")
         else:
-            return False
-    return False
+            return "other"
+    return "other"
 
 
+def is_tail_err(block_or_expr):
+    return tail_kind(block_or_expr) == "err"
+
+
+def pat_variants(pat):
+    """def paths of the enum variants / structs a pattern destructures"""
+    out = set()
+    for x in subnodes(pat):
+        if x.get("k") in ("Struct", "TupleStruct", "PatExpr", "Path"):
+            d = x.get("ctor_of") or x.get("def")
+            if d:
+                out.add(norm(d))
+    return out
+
+
+def destructured(f, idx):
+    """variant paths that are known to have matched when control reaches nodes()[idx]: patterns of the enclosing match arms,
+    of enclosing `if let` (then-branch), and of `let .. else` statements that precede the node in an enclosing block"""
+    out = set()
+    for ctx in enclosing_contexts(f, idx):
+        if ctx[0] == "arm":
+            out |= pat_variants(ctx[2]["pat"])
+        elif ctx[0] == "if-then":
+            for x in subnodes(ctx[1]["cond"]):
+                if x.get("k") == "LetExpr":
+                    out |= pat_variants(x["pat"])
+    acc = f.nodes()
+    child = acc[idx][0]
+    p = acc[idx][1]
+    while p >= 0:
+        n = acc[p][0]
+        if n.get("k") == "Block" and n.get("stmts"):
+            for s in n["stmts"]:
+                if _contains(s, child):
+                    break
+                for x in ([s] if s.get("k") == "Let" else [y for y in (s.get("e"), s.get("l")) if isinstance(y, dict) and y.get("k") == "Let"]):
+                    if "els" in x:
+                        out |= pat_variants(x["pat"])
+        child = n
+        p = acc[p][1]
+    return out
+
+
+def short_circuits(f):
+    """places where the handling of a list stops at its first failing element: `collect`/`sum`/.. into Result/Option, try_* and
+    searching adaptors, and `?`/`return`/`break` directly inside a loop body (not inside a closure within it)"""
+    out = []
+    for i, (x, _) in enumerate(f.nodes()):
+        k = x.get("k")
+        if k == "MethodCall":
+            m = x["method"]
+            if m in ("collect", "try_collect", "sum", "product") and peel_ty(x.get("t", "")).startswith(("core::result::Result<", "core::option::Option<")):
+                out.append("%s into %s" % (m, peel_ty(x["t"]).split("<")[0].split("::")[-1]))
+            elif m in ("try_for_each", "try_fold", "map_while", "take_while", "find_map", "find", "process_results", "fold_ok"):
+                out.append(m)
+        elif (k == "Match" and str(x.get("src", "")).startswith("TryDesugar")) or (k in ("Ret", "Break") and "desugar" not in (x.get("x") or "")):
+            if k == "Break" and x.get("e") is None:
+                pass
+            inner = next((c[0] for c in enclosing_contexts(f, i) if c[0] in ("loop", "closure")), None)
+            if inner == "loop":
+                out.append("`?`" if k == "Match" else ("`return`" if k == "Ret" else "`break`") + " inside a loop")
+    return out
+
+
+def path_sig(atoms):
+    """what a path value is made of, up to ownership conversions: its sources (parameters, fields) and path-shaping calls"""
+    shaping = {"join", "with_file_name", "with_extension", "set_file_name", "set_extension", "push", "parent", "file_name", "canonicalize"}
+    out = set()
+    for a in atoms:
+        if a[0] in ("param", "field"):
+            out.add(a)
+        elif a[0] == "call" and a[1].split("::")[-1] in shaping:
+            out.add(("call", a[1].split("::")[-1]))
+    return out
+
+
+def _src_exprs(pv, e, depth=3):
+    """`e` and the expressions its locals were bound to (a few levels)"""
+    out, frontier = [], [e]
+    for _ in range(depth + 1):
+        nxt = []
+        for x in frontier:
+            if x is None:
+                continue
+            out.append(x)
+            for y in subnodes(x):
+                if y.get("k") == "Path" and "local" in y:
+                    nxt.extend(s for s, _ in pv.src.get(y["local"], []) if isinstance(s, dict))
+        frontier = nxt
+    return out
+
+
+def renderers(P):
+    """the three renderers of CliOutput and, among them, those that print a JSON document to stdout (by name, else by role)"""
+    rs = {}
+    for name in ("human_output", "json_output", "rdjson_output"):
+        f = P.fn(OUT + "::" + name, required=False)
+        if f is not None:
+            rs[name] = f
+    if len(rs) < 3:
+        meths = [g for g in P.fns.values() if _live(g) and (g.self_adt or "").endswith("output::CliOutput") and g.kind == "AssocFn"
+                 and any("FileStore" in t for t in g.sig_inputs)]
+        if len(meths) != 3:
+            raise AnchorMissing("the three renderers of CliOutput (methods taking the FileStore) cannot be identified: %s" % sorted(g.path for g in meths))
+        rs = {g.name: g for g in meths}
+    jsonish = {n: g for n, g in rs.items() if any("JSONObjectWriter" in (call_name(x) or "") for x in inlined(P, g).walk() if x.get("k") in ("Call", "MethodCall"))}
+    return rs, jsonish
+
+
+def diag_fields(P):
+    """fields of CliOutput in which `Extend::extend` stores the diagnostics it is given (today: check_errors)"""
+    out = set()
+    for f in P.trait_impls("core::iter::traits::collect::Extend", "extend"):
+        if (f.self_adt or "").endswith("output::CliOutput"):
+            for c in f.walk():
+                if c.get("k") == "MethodCall" and c["method"] in ("extend", "push", "append") and c["recv"].get("k") == "Field" and is_out(c["recv"].get("adt")):
+                    out.add(c["recv"]["field"])
+    return out or {"check_errors"}
+
+
+def _result_branches(body_fn, is_res, pat_variants):
+    branches = []
+    for m in body_fn.walk():
+        if m.get("k") == "Match" and m.get("src") == "Normal" and is_res(m["scrut"]):
+            for arm in m["arms"]:
+                for v in arm_variants({"arms": [arm]})[0] & {"Ok", "Err"}:
+                    branches.append((v, arm["body"]))
+        elif m.get("k") == "If" and m["cond"].get("k") == "LetExpr" and is_res(m["cond"].get("init")) and m.get("else") is not None:
+            vs = {x.split("::")[-1] for x in pat_variants(m["cond"]["pat"])} & {"Ok", "Err"}
+            for v in vs:
+                branches.append((v, m["then"]))
+                branches.append(("Ok" if v == "Err" else "Err", m["else"]))
+        elif m.get("k") == "Let" and "els" in m and is_res(m.get("init")):
+            vs = {x.split("::")[-1] for x in pat_variants(m["pat"])} & {"Ok", "Err"}
+            for v in vs:
+                branches.append(("Ok" if v == "Err" else "Err", m["els"]))
+                # the code after the statement runs for `v`: the enclosing block (function body of the helper) gives the value
+                for blk in body_fn.walk():
+                    if blk.get("k") == "Block" and any(st is m for st in blk.get("stmts", [])):
+                        branches.append((v, blk))
+    return branches
+
+
+# --------------------------------------------------------------------------------------------------------------- R18-a
 def r18a(P, R):
     run_cli = P.fn(CLI + "run_cli")
     exits = P.ext_callers(lambda p: p == "std::process::exit")
-    exits = [(f, n) for f, c, n in exits if "::tests" not in f.path]
-    R.check("R18-a", "single-exit", len(exits) == 1 and exits[0][0].path.startswith(run_cli.path),
-            "process::exit is called at one site, in run_cli", "process::exit call sites: %s" % [f.path for f, _ in exits])
+    exits = [(f, n) for f, c, n in exits if "::tests" not in f.path and f.crate == run_cli.crate]
+    if len(exits) == 1:
+        R.holds("R18-a", "single-exit", "process::exit is called at one site (%s)" % short(exits[0][0].path))
+    elif not exits:
+        R.undecided("R18-a", "single-exit", "no call of process::exit in the CLI crate: the exit status is produced in a way this rule does not read")
+    else:
+        R.violated("R18-a", "single-exit", "process::exit call sites: %s" % [f.path for f, _ in exits])
     # `code` is 0 exactly in the Ok arm
-    body_fn = exits[0][0] if exits else run_cli
-    pv = Prov(body_fn)
-    if exits:
-        a = pv.atoms(exits[0][1]["args"][0]) if exits[0][1].get("k") == "Call" else set()
-    ms = [m for m in body_fn.walk() if m.get("k") == "Match" and m.get("src") == "Normal"
-          and peel_ty(m["scrut"].get("t", "")).startswith("core::result::Result<(), ")]
-    R.floor("R18-a", "result matches in run_cli", len(ms), 1)
-    for m in ms:
-        for arm in m["arms"]:
-            v, _ = arm_variants({"arms": [arm]})
-            tail = arm["body"]
-            while tail.get("k") == "BlockExpr":
-                tail = tail["b"].get("tail") or {}
-            val = lit_value(tail) if tail else None
-            if "Ok" in v:
-                R.check("R18-a", "exit:ok-arm", val == "0", "Ok(()) => exit code 0", "the Ok arm yields exit code %r" % val, loc=body_fn.loc())
-            if "Err" in v:
-                R.check("R18-a", "exit:err-arm", val is not None and val != "0", "Err => non-zero exit code",
-                        "the Err arm yields exit code %r" % val, loc=body_fn.loc())
-                ce = [n for n in subnodes(arm["body"]) if n.get("k") == "MethodCall" and (call_name(n) or "").endswith("CliOutput::command_error")]
-                R.check("R18-a", "exit:err-reported", len(ce) == 1, "every failing run records a command error message",
-                        "the Err arm does not record the error through CliOutput::command_error", loc=body_fn.loc())
+    body0 = exits[0][0] if exits else run_cli
+
+    def is_res(e):
+        return e is not None and peel_ty(e.get("t", "")).startswith("core::result::Result<(), ")
+
+    def value_of(region):
+        """the literal a branch evaluates to / returns"""
+        e = region
+        while e is not None and e.get("k") in ("BlockExpr", "Block"):
+            b_ = e["b"] if e.get("k") == "BlockExpr" else e
+            if b_.get("tail") is not None:
+                e = b_["tail"]
+            else:
+                last = b_["stmts"][-1] if b_.get("stmts") else None
+                while last is not None and last.get("k") not in ("Ret", "InlRet") and isinstance(last.get("e"), dict):
+                    last = last["e"]
+                e = last
+        if e is not None and e.get("k") in ("Ret", "InlRet"):
+            e = e.get("e")
+        return lit_value(e) if e is not None else None
+    # branches on the command result: [(variant, region)] from `match`, `if let` and `let .. else`; looked for where the process
+    # exits and, when the exit itself sits in a small helper, in the functions that call it
+    cands, frontier = [body0], [body0]
+    for _ in range(2):
+        frontier = [P.fns[c] for f_ in frontier for c in P.callers_of(f_.path) if c.startswith(CLI) and "::tests" not in c]
+        cands += [g for g in frontier if g not in cands]
+    branches = []
+    for cand in cands:
+        body_fn = inlined(P, cand, depth=1)
+        branches = _result_branches(body_fn, is_res, pat_variants)
+        if branches:
+            body0 = cand
+            break
+    R.floor("R18-a", "branches on the command result in run_cli", len(branches), 2)
+    for v, region in branches:
+        val = value_of(region)
+        if v == "Ok":
+            if val is None:
+                R.undecided("R18-a", "exit:ok-arm", "the Ok branch does not end in a literal exit code", loc=body0.loc())
+            else:
+                R.check("R18-a", "exit:ok-arm", val == "0", "Ok(()) => exit code 0", "the Ok arm yields exit code %r" % val, loc=body0.loc())
+        else:
+            if val is None:
+                R.undecided("R18-a", "exit:err-arm", "the Err branch does not end in a literal exit code", loc=body0.loc())
+            else:
+                R.check("R18-a", "exit:err-arm", val != "0", "Err => non-zero exit code", "the Err arm yields exit code %r" % val, loc=body0.loc())
+            ce = [n for n in subnodes(region) if n.get("k") == "MethodCall" and (call_name(n) or "").endswith("CliOutput::command_error")]
+            R.check("R18-a", "exit:err-reported", len(ce) >= 1, "every failing run records a command error message",
+                    "the Err arm does not record the error through CliOutput::command_error", loc=body0.loc())
     # diagnostics are only recorded on a path that returns Err
     ext = [f for f in P.trait_impls("core::iter::traits::collect::Extend", "extend") if (f.self_adt or "").endswith("CliOutput")]
     R.floor("R18-a", "CliOutput::extend impl", len(ext), 1)
     n = 0
-    for f in P.fns.values():
+    for f in sorted(P.fns.values(), key=lambda g: g.path):
         if not f.path.startswith(CLI) or "::tests" in f.path:
             continue
         for i, (c, _) in enumerate(f.nodes()):
             if c.get("k") == "MethodCall" and ext and call_name(c) == ext[0].path:
                 n += 1
-                ctx = enclosing_contexts(f, i)
-                arm = next((x for x in ctx if x[0] == "arm"), None)
-                ok = arm is not None and is_tail_err(arm[2]["body"])
-                R.check("R18-a", "diag->err:%s" % short(f.path), ok, "diagnostics recorded => the command returns Err",
-                        "%s records check diagnostics on a path that does not return Err (exit status could be 0 with diagnostics)" % f.path,
-                        loc=f.loc())
+                # the branch the recording lies in (innermost first), then the function body
+                regions = []
+                for x in enclosing_contexts(f, i):
+                    if x[0] == "arm":
+                        regions.append(x[2]["body"])
+                    elif x[0] == "if-then":
+                        regions.append(x[1]["then"])
+                    elif x[0] == "if-else":
+                        regions.append(x[1]["else"])
+                    elif x[0] in ("closure", "loop"):
+                        break
+                regions.append(f.body)
+                kinds = [tail_kind(r) for r in regions]
+                key = "diag->err:%s" % short(f.path)
+                if "err" in kinds and "ok" not in kinds[:kinds.index("err")]:
+                    R.holds("R18-a", key, "diagnostics recorded => the command returns Err", loc=f.loc())
+                elif kinds[0] == "ok" or (kinds[-1] == "ok" and set(kinds[:-1]) <= {"other"} and len(regions) == 1):
+                    R.violated("R18-a", key, "%s records check diagnostics on a path that ends in Ok(..) (exit status could be 0 with diagnostics)" % f.path, loc=f.loc())
+                else:
+                    R.undecided("R18-a", key, "%s records check diagnostics; whether that path returns Err is not decided" % f.path, loc=f.loc())
     R.floor("R18-a", "diagnostic recording sites", n, 1)
     # check_impl: Ok only when there are no errors
-    ci = P.fn(CLI + "check::check_impl")
-    oks = [(i, c) for i, (c, _) in enumerate(ci.nodes()) if c.get("k") == "Struct" and "rest" not in c
-           and norm(c.get("variant", "")).endswith("CheckImplOutput::Ok")]
+    ci0 = P.fn(CLI + "check::check_impl")
+    for ci in (ci0, inlined(P, ci0, depth=1)):   # the function itself first (exact provenance), then with helper bodies attached
+        oks = [(i, c) for i, (c, _) in enumerate(ci.nodes()) if c.get("k") == "Struct" and "rest" not in c
+               and norm(c.get("variant", "")).endswith("CheckImplOutput::Ok")]
+        if oks:
+            break
     R.floor("R18-a", "CheckImplOutput::Ok constructions", len(oks), 1)
     pvc = Prov(ci)
+    # locals that accumulate diagnostics through a method (`errors.push(err)`, `errors.extend(check_operation_document(..))`):
+    # provenance follows assignments, not mutation through `&mut self`
+    fed = set()
+    for x in ci.walk():
+        if x.get("k") == "MethodCall" and x["method"] in ("push", "extend", "append", "insert", "extend_from_slice", "push_back") and x["recv"].get("k") == "Path" \
+                and "local" in x["recv"] and any(has_call(pvc.atoms(a_), "check_operation_document") for a_ in x["args"]):
+            fed.add(x["recv"]["local"])
+
+    def from_diagnostics(e):
+        return has_call(pvc.atoms(e), "check_operation_document") or any(y.get("k") == "Path" and y.get("local") in fed for y in subnodes(e))
+
+    def emptiness_test(cond):
+        """(is a test of the operation diagnostics, True if the condition means `empty`)"""
+        names = [x.get("method") for x in subnodes(cond) if x.get("k") == "MethodCall"]
+        if "is_empty" not in names or not from_diagnostics(cond):
+            return False, None
+        neg = sum(1 for x in subnodes(cond) if x.get("k") == "Unary" and x.get("op") == "Not") % 2 == 1
+        return True, not neg
     for i, c in oks:
-        ctx = enclosing_contexts(ci, i)
-        guard = [x for x in ctx if x[0] in ("if-else", "if-then")]
-        ok = False
-        for kind, ifn in guard:
-            cond = ifn["cond"]
-            names = [x.get("method") for x in subnodes(cond) if x.get("k") == "MethodCall"]
-            neg = any(x.get("k") == "Unary" and x.get("op") == "Not" for x in subnodes(cond))
-            if "is_empty" in names and ((kind == "if-else" and neg) or (kind == "if-then" and not neg)):
-                ca = pvc.atoms(cond)
-                if has_call(ca, "check_operation_document"):
-                    ok = True
-        R.check("R18-a", "check-ok-iff-no-errors", ok, "check succeeds only when the operation diagnostics are empty",
-                "CheckImplOutput::Ok is constructed on a path not guarded by `errors.is_empty()` over check_operation_document's result",
-                loc=ci.loc())
+        ok = None
+        for ctx in enclosing_contexts(ci, i):
+            if ctx[0] in ("if-then", "if-else"):
+                t, empty = emptiness_test(ctx[1]["cond"])
+                if t:
+                    ok = (empty and ctx[0] == "if-then") or (not empty and ctx[0] == "if-else")
+                    break
+        if ok is None:
+            # early return: `if !errors.is_empty() { return ..Err }` before the construction
+            for j, (x, _) in enumerate(ci.nodes()):
+                if j >= i:
+                    break
+                if x.get("k") == "If":
+                    t, empty = emptiness_test(x["cond"])
+                    if t and not empty and any(y.get("k") == "Ret" for y in subnodes(x["then"])) and not _contains(x, c):
+                        ok = True
+        tested = any(emptiness_test(x["cond"])[0] for x in ci.walk() if x.get("k") == "If")
+        if ok:
+            R.holds("R18-a", "check-ok-iff-no-errors", "check succeeds only when the operation diagnostics are empty", loc=ci0.loc())
+        elif ok is False or not tested and not any(from_diagnostics(y["cond"] if y.get("k") == "If" else y["scrut"])
+                                                    for y in ci.walk() if y.get("k") == "If" or (y.get("k") == "Match" and y.get("src") == "Normal")):
+            R.violated("R18-a", "check-ok-iff-no-errors", "CheckImplOutput::Ok is constructed on a path not guarded by `errors.is_empty()` over "
+                       "check_operation_document's result", loc=ci0.loc())
+        else:
+            R.undecided("R18-a", "check-ok-iff-no-errors", "the diagnostics of check_operation_document are tested, but not in a shape this rule relates to "
+                        "the construction of CheckImplOutput::Ok", loc=ci0.loc())
 
 
+# --------------------------------------------------------------------------------------------------------------- R18-b
 def r18b(P, R):
     run_cli = P.fn(CLI + "run_cli")
     reach = P.reachable([run_cli])
+    rs, jsonish = renderers(P)
+    expect = {g.path for g in jsonish.values()}
     printers = {}
-    for p in reach:
+    for p in sorted(reach):
         f = P.fns[p]
         for n in f.walk():
             if n.get("k") == "Call" and (call_name(n) or "") == "std::io::stdio::_print":
                 printers.setdefault(p, []).append(n)
     R.count("functions_reachable_from_run_cli", len(reach))
-    expect = {P.fn(CLI + "output::CliOutput::json_output").path: 1, P.fn(CLI + "output::CliOutput::rdjson_output").path: 1}
+    R.floor("R18-b", "JSON renderers of CliOutput", len(expect), 2)
+    # stdout writers that can be reached without passing through a JSON renderer
+    outside = P.reachable([run_cli], stop=expect)
     for p, ns in sorted(printers.items()):
         if p in expect:
-            R.check("R18-b", "stdout:" + short(p), len(ns) == expect[p], "prints the JSON buffer exactly once",
-                    "%s writes to stdout %d times" % (p, len(ns)), loc=P.fns[p].loc())
-            pv = Prov(P.fns[p])
-            a = pv.atoms(ns[0])
-            R.check("R18-b", "stdout-buffer:" + short(p), ("call", "alloc::string::String::new") in a or any(x[0] == "call" and "JSONObjectWriter" in x[1] for x in a),
-                    "what is printed is the JSON writer's buffer", "%s prints something other than the JSON buffer" % p, loc=P.fns[p].loc())
-        else:
+            continue
+        if p in outside:
             R.violated("R18-b", "stdout:" + P.fns[p].path, "%s (reachable from run_cli) writes to stdout: in json/rdjson mode stdout is "
                        "no longer one JSON document" % p, loc=P.fns[p].loc())
-    for p in expect:
-        if p not in printers:
-            R.violated("R18-b", "stdout:" + short(p), "%s no longer prints its buffer" % p)
+        else:
+            R.holds("R18-b", "stdout-helper:" + short(p), "prints only on behalf of the JSON renderers", loc=P.fns[p].loc())
+    for name, g in sorted(jsonish.items()):
+        gi = inlined(P, g)
+        ns = [n for n in gi.walk() if n.get("k") == "Call" and (call_name(n) or "") == "std::io::stdio::_print"]
+        if not ns:
+            R.violated("R18-b", "stdout:" + short(g.path), "%s no longer prints its buffer" % g.path, loc=g.loc())
+            continue
+        R.check("R18-b", "stdout:" + short(g.path), len(ns) == 1, "prints the JSON buffer exactly once",
+                "%s writes to stdout %d times" % (g.path, len(ns)), loc=g.loc())
+        pv = Prov(gi)
+        a = set()
+        for x in ns:
+            a |= pv.atoms(x)
+        R.check("R18-b", "stdout-buffer:" + short(g.path), ("call", "alloc::string::String::new") in a or any(x[0] == "call" and "JSONObjectWriter" in x[1] for x in a),
+                "what is printed is the JSON writer's buffer", "%s prints something other than the JSON buffer" % g.path, loc=g.loc())
     # direct stdout handles
     others = [f.path for f, c, n in P.ext_callers(lambda q: q in ("std::io::stdio::stdout", "std::io::stdio::Stdout::lock")) if f.path in reach]
     R.check("R18-b", "stdout:handles", not others, "no other stdout handle is taken on the CLI path", "stdout handle taken in %s" % others)
     # the three renderers are selected by an exhaustive match over OutputFormat
-    ms = matches_on(run_cli, "OutputFormat") + [m for f in P.fns.values() if f.path.startswith(run_cli.path) for m in matches_on(f, "OutputFormat")]
+    ms = [m for f in P.fns.values() if f.path in reach and f.path.startswith(CLI) for m in matches_on(f, "OutputFormat")]
     ok = False
     for m in ms:
         v, catch = arm_variants(m)
         if v == {"Human", "Json", "Rdjson"} and not catch:
             ok = True
-    R.check("R18-b", "renderer-dispatch", ok, "each output format has its renderer", "run_cli does not dispatch all three output formats explicitly")
+    unreached = sorted(g.path for g in rs.values() if g.path not in reach)
+    if unreached:
+        R.violated("R18-b", "renderer-dispatch", "renderer(s) %s are not reachable from run_cli: that output format is never produced" % unreached)
+    elif ok:
+        R.holds("R18-b", "renderer-dispatch", "each output format has its renderer")
+    else:
+        R.undecided("R18-b", "renderer-dispatch", "all three renderers are reachable from run_cli, but not through an exhaustive match over OutputFormat")
+
+
+# --------------------------------------------------------------------------------------------------------------- R18-c
+def write_helpers(P):
+    """the functions of the CLI that write an output file and report it (by name, else by role: they call both a file-creating
+    API and CliOutput::generated_file)"""
+    out = []
+    for name in ("write_file_and_sourcemap", "write_file_without_sourcemap"):
+        f = P.fn(CLI + "generate::" + name, required=False)
+        if f is not None:
+            out.append(f)
+    if len(out) == 2:
+        return out
+    cands = []
+    creators = {f.path for f, c, n in P.ext_callers(lambda p: p.startswith(FILE_CREATE)) if "::tests" not in f.path}
+    for g in P.fns.values():
+        if _live(g) and g.path.startswith(CLI) and g.kind in ("Fn", "AssocFn"):
+            cs = {call_name(x) or "" for x in g.walk() if x.get("k") in ("Call", "MethodCall")}
+            if any(c.endswith("CliOutput::generated_file") for c in cs) and (creators & P.reachable([g])):
+                cands.append(g)
+    if not cands:
+        raise AnchorMissing("no function of the CLI both creates a file and reports it through CliOutput::generated_file")
+    return cands
+
+
+def gated(f, idx, want, enum):
+    """is nodes()[idx] executed only after `enum::want` was destructured? -> True | False (another variant of `enum` was) | None"""
+    vs = {v for v in destructured(f, idx) if ("::" + enum + "::") in ("::" + v)}
+    if any(v.endswith("::" + want) for v in vs):
+        return True
+    if vs:
+        return False
+    return None
 
 
 def r18c(P, R):
     run_cli = P.fn(CLI + "run_cli")
-    reach = P.reachable([run_cli])
-    w1 = P.fn(CLI + "generate::write_file_and_sourcemap")
-    w2 = P.fn(CLI + "generate::write_file_without_sourcemap")
+    helpers = write_helpers(P)
+    hp = {w.path for w in helpers}
     rg = P.fn(CLI + "generate::run_generate")
     rc = P.fn(CLI + "check::run_check")
     writers = {}
@@ -150,201 +482,345 @@ def r18c(P, R):
         writers.setdefault(f.path, []).append(c)
     R.count("fs_write_call_sites", sum(len(v) for v in writers.values()))
     for p, cs in sorted(writers.items()):
-        R.check("R18-c", "who-may-write:" + short(p), p in (w1.path, w2.path),
-                "file-system writes only in the two write helpers", "%s writes to the file system (%s)" % (p, cs), loc=P.fns[p].loc())
-    R.floor("R18-c", "write helper call sites", sum(len(v) for v in writers.values()), 5)
-    for w in (w1, w2):
-        callers = [c for c in P.callers_of(w.path) if "::tests" not in c]
-        R.check("R18-c", "write-callers:" + w.name, callers == [rg.path], "only run_generate writes files",
-                "%s is called from %s" % (w.path, callers), loc=w.loc())
+        R.check("R18-c", "who-may-write:" + short(p), only_via(P, p, hp),
+                "file-system writes only in (or on behalf of) the write helpers", "%s writes to the file system (%s) and can be reached "
+                "without going through %s" % (p, sorted(set(cs)), sorted(short(h) for h in hp)), loc=P.fns[p].loc())
+    R.floor("R18-c", "file-system write call sites", sum(len(v) for v in writers.values()), 3)
+    for w in helpers:
+        callers = [c for c in P.callers_of(w.path) if "::tests" not in c and c not in hp]
+        stray = [c for c in callers if not only_via(P, c, {rg.path})]
+        R.check("R18-c", "write-callers:" + w.name, not stray, "only run_generate (and its own helpers) writes files",
+                "%s is called from %s, which is reachable without going through run_generate" % (w.path, stray), loc=w.loc())
     # `check` writes no file
     rc_reach = P.reachable([rc])
-    R.check("R18-c", "check-writes-nothing", not (set(writers) & rc_reach) and w1.path not in rc_reach and w2.path not in rc_reach,
-            "no file-system write is reachable from run_check", "run_check reaches a file-system write: %s" % sorted(set(writers) & rc_reach))
+    R.check("R18-c", "check-writes-nothing", not (set(writers) & rc_reach) and not (hp & rc_reach),
+            "no file-system write is reachable from run_check", "run_check reaches a file-system write: %s" % sorted((set(writers) | hp) & rc_reach))
     # every write helper call in run_generate lies in the SchemaResolved arm
+    rgi = inlined(P, rg, pred=lambda g: g.path not in hp and g.path != rc.path)
     n = 0
-    for i, (c, _) in enumerate(rg.nodes()):
-        if c.get("k") == "Call" and call_name(c) in (w1.path, w2.path):
+    for i, (c, _) in enumerate(rgi.nodes()):
+        if c.get("k") == "Call" and call_name(c) in hp:
             n += 1
-            arms = [x for x in enclosing_contexts(rg, i) if x[0] == "arm"]
-            ok = any("SchemaResolved" in arm_variants({"arms": [a[2]]})[0] for a in arms)
-            R.check("R18-c", "write-gate:%d" % n, ok, "write happens only with a resolved (checked) context",
-                    "run_generate writes a file outside the SchemaResolved arm", loc=rg.loc())
+            g = gated(rgi, i, "SchemaResolved", "CliContext")
+            key = "write-gate:%d" % n
+            if g:
+                R.holds("R18-c", key, "write happens only with a resolved (checked) context", loc=rg.loc())
+            elif g is False:
+                R.violated("R18-c", key, "run_generate writes a file on a path where the context is not CliContext::SchemaResolved", loc=rg.loc())
+            else:
+                R.undecided("R18-c", key, "a write helper is called outside any destructuring of CliContext this rule recognises", loc=rg.loc())
     R.floor("R18-c", "write calls in run_generate", n, 4)
 
 
 def gate(P, R, rule="R18-c"):
     """SchemaResolved is only constructed after a successful check (shared with C03's R03-g)"""
     n = 0
-    for f in P.fns.values():
+    for f in sorted(P.fns.values(), key=lambda g: g.path):
         if not f.path.startswith(CLI) or "::tests" in f.path:
             continue
         for i, (c, _) in enumerate(f.nodes()):
             if c.get("k") == "Struct" and "rest" not in c and norm(c.get("variant", "")).endswith("CliContext::SchemaResolved"):
                 n += 1
-                arms = [x for x in enclosing_contexts(f, i) if x[0] == "arm"]
-                vs = set()
-                for a in arms:
-                    vs |= arm_variants({"arms": [a[2]]})[0]
-                ok = "Ok" in vs and f.name == "run_check" or ("SchemaResolved" in vs)
-                # in run_check the Ok arm must be CheckImplOutput::Ok
-                if f.name == "run_check":
-                    ok = any(norm(p.get("def", "")).endswith("CheckImplOutput::Ok") for a in arms for p in subnodes(a[2]["pat"]))
-                R.check(rule, "resolved-ctor:%s" % short(f.path), ok,
-                        "SchemaResolved built only from CheckImplOutput::Ok or by re-wrapping a SchemaResolved",
-                        "%s constructs CliContext::SchemaResolved on a path that is not the successful-check path: generate could run "
-                        "on an unchecked project" % f.path, loc=f.loc())
+                vs = destructured(f, i)
+                from_check = any(v.endswith("CheckImplOutput::Ok") for v in vs)
+                rewrap = any(v.endswith("CliContext::SchemaResolved") for v in vs)
+                other = sorted(v for v in vs if ("::CheckImplOutput::" in v and not v.endswith("::Ok")))
+                # where the data of the new context comes from: fields bound from CheckImplOutput::Ok / an existing SchemaResolved
+                pvf = Prov(f)
+                src = set()
+                for fl in c.get("fields", []):
+                    if isinstance(fl, dict) and "e" in fl:
+                        src |= {a[1] for a in pvf.atoms(fl["e"]) if a[0] == "field" and a[1]}
+                checked = any(a.endswith(("CheckImplOutput::Ok", "CliContext::SchemaResolved")) for a in src)
+                key = "resolved-ctor:%s" % short(f.path)
+                if other:
+                    R.violated(rule, key, "%s constructs CliContext::SchemaResolved on a path that is not the successful-check path (matched: %s): "
+                               "generate could run on an unchecked project" % (f.path, sorted(short(v) for v in other)), loc=f.loc())
+                elif from_check or rewrap or checked:
+                    R.holds(rule, key, "SchemaResolved built only from CheckImplOutput::Ok or by re-wrapping a SchemaResolved", loc=f.loc())
+                elif src and not checked and any(a.endswith("CliContext::SchemaUnresolved") for a in src):
+                    R.violated(rule, key, "%s constructs CliContext::SchemaResolved from the unresolved context alone (nothing in it comes from CheckImplOutput::Ok): "
+                               "generate could run on an unchecked project" % f.path, loc=f.loc())
+                else:
+                    R.undecided(rule, key, "%s constructs CliContext::SchemaResolved under conditions this rule does not relate to the check verdict" % f.path, loc=f.loc())
     R.floor(rule, "SchemaResolved constructions", n, 2)
     rg = P.fn(CLI + "generate::run_generate")
+    rc = P.fn(CLI + "check::run_check")
     # run_generate runs check first when the context is unresolved, and propagates its error
-    calls = [c for c in rg.walk() if c.get("k") == "Call" and (call_name(c) or "").endswith("check::run_check")]
-    R.check(rule, "generate-runs-check", len(calls) >= 1, "run_generate calls run_check on an unresolved context",
+    R.check(rule, "generate-runs-check", rc.path in P.reachable([rg]), "run_generate calls run_check on an unresolved context",
             "run_generate no longer runs check before generating", loc=rg.loc())
     # printer calls only in SchemaResolved arm
+    rgi = inlined(P, rg, pred=lambda g: g.path != rc.path)
     n = 0
-    for i, (c, _) in enumerate(rg.nodes()):
+    for i, (c, _) in enumerate(rgi.nodes()):
         nm = call_name(c) or "" if c.get("k") in ("Call", "MethodCall") else ""
         if nm.startswith("nitrogql_printer::") and ("print_document" in nm or "print_types_for_operation_document" in nm or nm.endswith("print_graphql")):
             n += 1
-            arms = [x for x in enclosing_contexts(rg, i) if x[0] == "arm"]
-            ok = any("SchemaResolved" in arm_variants({"arms": [a[2]]})[0] for a in arms)
-            R.check(rule, "printer-gate:%d" % n, ok, "printers run only on a checked context", "a printer is called outside the SchemaResolved arm", loc=rg.loc())
+            g = gated(rgi, i, "SchemaResolved", "CliContext")
+            key = "printer-gate:%d" % n
+            if g:
+                R.holds(rule, key, "printers run only on a checked context", loc=rg.loc())
+            elif g is False:
+                R.violated(rule, key, "a printer is called on a path where the context is not CliContext::SchemaResolved", loc=rg.loc())
+            else:
+                R.undecided(rule, key, "a printer is called outside any destructuring of CliContext this rule recognises", loc=rg.loc())
     R.floor(rule, "printer calls in run_generate", n, 5)
 
 
+# --------------------------------------------------------------------------------------------------------------- R18-d
 def r18d(P, R):
     """each write is paired with a `generated_file` report of the same path"""
-    for name, nw in (("write_file_and_sourcemap", 2), ("write_file_without_sourcemap", 1)):
-        f = P.fn(CLI + "generate::" + name)
+    pinned = {"write_file_and_sourcemap": 2, "write_file_without_sourcemap": 1}
+    helpers = write_helpers(P)
+    for f0 in helpers:
+        name = f0.name
+        f = inlined(P, f0)
         pv = Prov(f)
-        writes = [c for c in f.walk() if c.get("k") == "Call" and (call_name(c) or "") in ("std::fs::write", "std::fs::File::create")]
+        writes = [c for c in f.walk() if c.get("k") in ("Call", "MethodCall") and (call_name(c) or "").startswith(FILE_CREATE)]
         reports = [c for c in f.walk() if c.get("k") == "MethodCall" and (call_name(c) or "").endswith("CliOutput::generated_file")]
-        R.check("R18-d", "pairing-count:" + name, len(writes) == nw and len(reports) == nw,
-                "%d write(s), %d report(s)" % (len(writes), len(reports)),
-                "%s performs %d write(s) but reports %d generated file(s)" % (f.path, len(writes), len(reports)), loc=f.loc())
-
-        def path_atoms(e):
-            return {a for a in pv.atoms(e) if a[0] in ("param",) or (a[0] == "call" and ("set_file_name" in a[1] or "to_owned" in a[1]))}
-        wa = sorted(str(sorted(x for x in pv.atoms(w["args"][0]) if x[0] == "param")) for w in writes)
+        key = "pairing-count:" + name
+        if len(writes) == len(reports):
+            if name not in pinned or len(writes) == pinned[name]:
+                R.holds("R18-d", key, "%d write(s), %d report(s)" % (len(writes), len(reports)), loc=f0.loc())
+            else:
+                R.undecided("R18-d", key, "%d write(s) and %d report(s); %d of each were confirmed on the pinned tree" % (len(writes), len(reports), pinned[name]), loc=f0.loc())
+        else:
+            # a report may have been moved next to the call of the helper: it must then name the path that is passed to the helper
+            missing = len(writes) - len(reports)
+            comp, bad = 0, []
+            if missing > 0:
+                for cp in P.callers_of(f0.path):
+                    g = P.fns[cp]
+                    if "::tests" in cp:
+                        continue
+                    gpv = Prov(g)
+                    greports = [c for c in g.walk() if c.get("k") == "MethodCall" and (call_name(c) or "").endswith("CliOutput::generated_file")]
+                    for call in [c for c in g.walk() if c.get("k") == "Call" and call_name(c) == f0.path]:
+                        sigs = [path_sig(gpv.atoms(a)) for a in call["args"] if "Path" in str(a.get("t", ""))]
+                        hit = [r for r in greports if any(path_sig(gpv.atoms(r["args"][-1])) == s for s in sigs)]
+                        if hit:
+                            comp += 1
+                        elif greports:
+                            for r in greports:
+                                rs_ = path_sig(gpv.atoms(r["args"][-1]))
+                                for s_ in sigs:
+                                    bad.append("%s writes a path made of %s but reports one made of %s" % (
+                                        short(cp), sorted("%s.%s" % (a[1].split("::")[-1], a[2]) if a[0] == "field" else a[1] for a in s_ - rs_) or "the same parts",
+                                        sorted("%s.%s" % (a[1].split("::")[-1], a[2]) if a[0] == "field" else a[1] for a in rs_ - s_) or "fewer parts"))
+            ncalls = sum(1 for cp in P.callers_of(f0.path) if "::tests" not in cp for c in P.fns[cp].walk() if c.get("k") == "Call" and call_name(c) == f0.path)
+            if missing > 0 and comp == ncalls and ncalls > 0 and missing == 1:
+                R.holds("R18-d", key, "%d write(s); the report of the written path is made by the caller(s)" % len(writes), loc=f0.loc())
+            else:
+                R.violated("R18-d", key, "%s performs %d write(s) but reports %d generated file(s)%s" % (f0.path, len(writes), len(reports), ("; " + "; ".join(bad)) if bad else ""), loc=f0.loc())
+        wa = sorted(str(sorted(x for x in pv.atoms(w["args"][0] if w.get("k") == "Call" else (w["args"] or [w["recv"]])[0]) if x[0] == "param")) for w in writes)
         ra = sorted(str(sorted(x for x in pv.atoms(r["args"][1]) if x[0] == "param")) for r in reports)
-        R.check("R18-d", "pairing-path:" + name, wa == ra, "written and reported paths derive from the same values",
-                "%s writes %s but reports %s" % (f.path, wa, ra), loc=f.loc())
-        # the map file name is the output path + ".map"
-        if name == "write_file_and_sourcemap":
-            lits = [x.get("v") for x in f.walk() if x.get("k") == "Lit" and x.get("lk") == "str"]
-            R.check("R18-d", "map-suffix", ".map" in lits, "source map is written next to the output as <file>.map", "no `.map` suffix literal", loc=f.loc())
+        if len(writes) == len(reports):
+            R.check("R18-d", "pairing-path:" + name, wa == ra, "written and reported paths derive from the same values",
+                    "%s writes %s but reports %s" % (f0.path, wa, ra), loc=f0.loc())
+        else:
+            R.check("R18-d", "pairing-path:" + name, set(ra) <= set(wa) or not ra, "reported paths are written paths",
+                    "%s writes %s but reports %s" % (f0.path, wa, ra), loc=f0.loc())
+    # the map file name is the output path + ".map"
+    lits = [x.get("v") for f0 in helpers for x in inlined(P, f0).walk() if x.get("k") == "Lit" and x.get("lk") == "str"]
+    if ".map" in lits:
+        R.holds("R18-d", "map-suffix", "source map is written next to the output as <file>.map")
+    elif any(v and v.endswith(".map") for v in lits):
+        R.undecided("R18-d", "map-suffix", "a literal ending in `.map` is used, not the plain suffix")
+    else:
+        R.violated("R18-d", "map-suffix", "no `.map` suffix literal in the write helpers: the source map is not written next to the output as <file>.map")
 
 
+# --------------------------------------------------------------------------------------------------------------- R18-e
 def r18e(P, R):
     """check-stage diagnostics of all files are aggregated (no early exit inside the per-file closures)"""
-    ci = P.fn(CLI + "check::check_impl")
-    flat = [c for c in ci.walk() if c.get("k") == "MethodCall" and c["method"] == "flat_map"]
-    pv = Prov(ci)
-    ok = any(has_call(pv.atoms(c), "check_operation_document") for c in flat)
-    R.check("R18-e", "operations-all-files", ok, "every operation document is checked and all diagnostics collected (flat_map)",
-            "check_impl does not collect check_operation_document over all operations", loc=ci.loc())
-    ro = P.fn(CLI + "check::resolve_operations")
-    parts = [c for c in ro.walk() if c.get("k") == "MethodCall" and c["method"] == "partition_result"]
-    R.check("R18-e", "resolve-all-files", len(parts) == 2, "extension and import resolution errors are partitioned over all files",
-            "resolve_operations no longer aggregates per-file errors with partition_result (found %d)" % len(parts), loc=ro.loc())
+    ci0 = P.fn(CLI + "check::check_impl")
+    ci = inlined(P, ci0)
+    sites = [i for i, (c, _) in enumerate(ci.nodes()) if c.get("k") == "Call" and (call_name(c) or "").endswith("check_operation_document")]
+    sc_ci = short_circuits(ci0)
+    if not sites:
+        R.undecided("R18-e", "operations-all-files", "no call of check_operation_document in check_impl", loc=ci0.loc())
+    else:
+        per_file = [any(c[0] in ("loop", "closure") for c in enclosing_contexts(ci, i)) for i in sites]
+        if all(per_file) and not sc_ci:
+            R.holds("R18-e", "operations-all-files", "every operation document is checked and all diagnostics collected", loc=ci0.loc())
+        elif sc_ci:
+            R.violated("R18-e", "operations-all-files", "check_impl stops at the first failing element (%s): diagnostics of later operation files are lost" % sc_ci, loc=ci0.loc())
+        else:
+            R.undecided("R18-e", "operations-all-files", "check_operation_document is not called per operation document in a loop/iterator this rule sees", loc=ci0.loc())
+    ro0 = P.fn(CLI + "check::resolve_operations")
+    ro = inlined(P, ro0)
+    parts = [c for c in ro.walk() if c.get("k") == "MethodCall" and c["method"] in ("partition_result", "partition", "partition_map")]
+    sc = short_circuits(ro)
+    if sc:
+        R.violated("R18-e", "resolve-all-files", "resolve_operations stops at the first failing file (%s) instead of collecting the errors of all files: "
+                   "an offending file may be named by no diagnostic" % sc, loc=ro0.loc())
+    elif len(parts) >= 2:
+        R.holds("R18-e", "resolve-all-files", "extension and import resolution errors are partitioned over all files", loc=ro0.loc())
+    else:
+        R.undecided("R18-e", "resolve-all-files", "resolve_operations has no early exit, but aggregates per-file errors in a shape this rule does not read "
+                    "(%d partition steps; 2 on the pinned tree)" % len(parts), loc=ro0.loc())
     from templates import LOSSY_OR_REORDERING
-    for f in (ci, ro):
-        bad = [c["method"] for c in f.walk() if c.get("k") == "MethodCall" and c["method"] in
-               ("take", "find", "find_map", "next", "nth", "first", "last", "take_while", "skip", "step_by", "truncate", "pop")]
+    for f in (ci0, ro0):
+        bad = [c["method"] for c in inlined(P, f).walk() if c.get("k") == "MethodCall" and c["method"] in
+               ("take", "find", "find_map", "next", "nth", "first", "last", "take_while", "skip", "step_by", "truncate", "pop")
+               and any(w in norm(c.get("recv_ty", "") or "") for w in ("Error", "OperationDocument", "CheckImplInput"))]
         R.check("R18-e", "no-truncation:" + f.name, not bad, "no diagnostic list is truncated", "%s applies %s to a diagnostics/operations list" % (f.path, bad), loc=f.loc())
     # CliOutput::extend appends every diagnostic it is given
     ext = [f for f in P.trait_impls("core::iter::traits::collect::Extend", "extend") if (f.self_adt or "").endswith("CliOutput")]
-    for f in ext:
+    for f0 in ext:
+        f = inlined(P, f0)
         pve = Prov(f)
-        lossy = [c["method"] for c in f.walk() if c.get("k") == "MethodCall" and c["method"] in LOSSY_OR_REORDERING]
-        inner = [c for c in f.walk() if c.get("k") == "MethodCall" and c["method"] in ("extend", "push") and c["recv"].get("k") == "Field" and c["recv"]["field"] == "check_errors"]
-        ok = not lossy and len(inner) == 1 and ("param", "iter") in pve.atoms(inner[0]["args"][0]) and \
-            not any("BTreeSet" in norm(x.get("t", "")) or "HashSet" in norm(x.get("t", "")) for x in f.walk() if x.get("k") in ("Call", "MethodCall", "Path"))
-        R.check("R18-e", "output-keeps-all", ok, "every recorded diagnostic is kept",
-                "CliOutput::extend filters or de-duplicates diagnostics (%s): some offending file may be named by no diagnostic" % (lossy or "set-based de-duplication"),
-                loc=f.loc())
+        lossy = [c["method"] for c in f.walk() if c.get("k") == "MethodCall" and c["method"] in LOSSY_OR_REORDERING
+                 and not (c["method"] in ("insert", "push") and c["recv"].get("k") == "Field" and is_out(c["recv"].get("adt")))]
+        inner = [c for c in f.walk() if c.get("k") == "MethodCall" and c["method"] in ("extend", "push", "append") and c["recv"].get("k") == "Field"
+                 and is_out(c["recv"].get("adt")) and c["args"]]
+        params = {a for c in inner for a in pve.atoms(c["args"][0]) if a[0] == "param" and a[1] != "self"}
+        sets = any("BTreeSet" in norm(x.get("t", "")) or "HashSet" in norm(x.get("t", "")) for x in f.walk() if x.get("k") in ("Call", "MethodCall", "Path"))
+        if lossy or sets:
+            R.violated("R18-e", "output-keeps-all", "CliOutput::extend filters or de-duplicates diagnostics (%s): some offending file may be named by no diagnostic"
+                       % (lossy or "set-based de-duplication"), loc=f0.loc())
+        elif inner and params:
+            R.holds("R18-e", "output-keeps-all", "every recorded diagnostic is kept", loc=f0.loc())
+        elif not inner or not params:
+            R.violated("R18-e", "output-keeps-all", "CliOutput::extend stores nothing derived from the diagnostics it is given", loc=f0.loc())
     # the schema arm reports every type-system diagnostic
-    rs = P.fn(CLI + "check::resolve_schema")
+    rs0 = P.fn(CLI + "check::resolve_schema")
+    rs = inlined(P, rs0)
     pvs = Prov(rs)
     errs = [c for c in rs.walk() if c.get("k") == "Call" and (call_name(c) or "").endswith("Result::Err")]
-    ok = any(has_call(pvs.atoms(c), "check_type_system_document") for c in errs)
-    R.check("R18-e", "schema-all-diagnostics", ok, "all diagnostics of check_type_system_document are returned",
-            "resolve_schema does not return the diagnostics of check_type_system_document", loc=rs.loc())
+    if any(has_call(pvs.atoms(c), "check_type_system_document") for c in errs):
+        R.holds("R18-e", "schema-all-diagnostics", "all diagnostics of check_type_system_document are returned", loc=rs0.loc())
+    elif not any((call_name(c) or "").endswith("check_type_system_document") for c in rs.walk() if c.get("k") == "Call"):
+        R.undecided("R18-e", "schema-all-diagnostics", "resolve_schema does not call check_type_system_document itself", loc=rs0.loc())
+    else:
+        R.undecided("R18-e", "schema-all-diagnostics", "the diagnostics of check_type_system_document do not reach an `Err(..)` of resolve_schema in a shape this rule reads", loc=rs0.loc())
+
+
+# --------------------------------------------------------------------------------------------------------------- R18-f
+POS = "nitrogql_ast::base::Pos"
 
 
 def r18f(P, R):
     """renderers agree: all read check_errors, test `builtin` before resolving the file"""
-    out = CLI + "output::CliOutput"
-    for name in ("human_output", "json_output", "rdjson_output"):
-        f = P.fn(out + "::" + name)
+    rs, jsonish = renderers(P)
+    dfields = diag_fields(P)
+    for name, f0 in sorted(rs.items()):
+        f = inlined(P, f0)
+        reads = any(is_out(a) and fld in dfields for a, fld in field_reads(f))
+        R.check("R18-f", "reads-errors:" + name, reads, "renders the recorded diagnostics", "%s does not read %s" % (f0.path, "/".join(sorted(dfields))), loc=f0.loc())
+    for name, f0 in sorted(jsonish.items()):
+        f = inlined(P, f0)
         pv = Prov(f)
-        reads = has_field(pv.atoms(f.body), out, "check_errors")
-        R.check("R18-f", "reads-errors:" + name, reads, "renders check_errors", "%s does not read check_errors" % f.path, loc=f.loc())
-    for name in ("json_output", "rdjson_output"):
-        f = P.fn(out + "::" + name)
-        pv = Prov(f)
-        gets = [c for c in f.walk() if c.get("k") == "MethodCall" and (call_name(c) or "").endswith("FileStore::get_file")]
+        acc = f.nodes()
+        gets = [i for i, (c, _) in enumerate(acc) if c.get("k") == "MethodCall" and (call_name(c) or "").endswith("FileStore::get_file")]
         R.floor("R18-f", "file lookups in " + name, len(gets), 1)
-        for i, (c, _) in enumerate(f.nodes()):
-            if c in gets:
-                # guarded by !position.builtin through `.then(|| ..)`
-                ok = False
-                for ctx in enclosing_contexts(f, i):
-                    if ctx[0] == "closure":
-                        pass
-                # walk up to the `.then(..)` call whose receiver tests `builtin`
-                acc = f.nodes()
-                p = acc[i][1]
-                while p >= 0:
-                    n = acc[p][0]
-                    if n.get("k") == "MethodCall" and n["method"] in ("then", "then_some") and \
-                            has_field(pv.atoms(n["recv"]), "nitrogql_ast::base::Pos", "builtin"):
+        reads_builtin = any(x.get("k") == "Field" and x.get("field") == "builtin" and (norm(x.get("adt")) or "").endswith("::Pos") for x in f.walk()) or \
+            (POS, "builtin") in field_reads(f)
+        for i in gets:
+            c = acc[i][0]
+            # guarded by !position.builtin: `.then(|| ..)` on the test, an enclosing `if`/`match` on it, or an early exit before
+            ok = False
+            p = acc[i][1]
+            while p >= 0 and not ok:
+                n = acc[p][0]
+                if n.get("k") == "MethodCall" and n["method"] in ("then", "then_some") and has_field(pv.atoms(n["recv"]), POS, "builtin"):
+                    ok = True
+                elif n.get("k") == "If" and has_field(pv.atoms(n["cond"]), POS, "builtin"):
+                    ok = True
+                elif n.get("k") == "Match" and n.get("src") == "Normal" and has_field(pv.atoms(n["scrut"]), POS, "builtin"):
+                    ok = True
+                p = acc[p][1]
+            if not ok:
+                for j in range(i):
+                    x = acc[j][0]
+                    if x.get("k") == "If" and has_field(pv.atoms(x["cond"]), POS, "builtin") and \
+                            any(y.get("k") in ("Ret", "Continue", "Break") for y in subnodes(x["then"])) and not _contains(x, c):
                         ok = True
-                        break
-                    if n.get("k") == "If" and has_field(pv.atoms(n["cond"]), "nitrogql_ast::base::Pos", "builtin"):
-                        ok = True
-                        break
-                    p = acc[p][1]
-                R.check("R18-f", "builtin-guard:" + name, ok, "the file is resolved only for non-builtin positions",
-                        "%s resolves the file of a position without testing `builtin`" % f.path, loc=f.loc())
-                a = pv.atoms(c["args"][0])
-                R.check("R18-f", "file-index:" + name, has_field(a, "nitrogql_ast::base::Pos", "file"),
-                        "file looked up by the diagnostic's own file index", "%s looks the file up by something other than position.file" % f.path, loc=f.loc())
+            key = "builtin-guard:" + name
+            if ok:
+                R.holds("R18-f", key, "the file is resolved only for non-builtin positions", loc=f0.loc())
+            elif not reads_builtin:
+                R.violated("R18-f", key, "%s resolves the file of a position without ever testing `builtin`" % f0.path, loc=f0.loc())
+            else:
+                R.undecided("R18-f", key, "%s reads `builtin`, but not as a guard of the file lookup in a shape this rule reads" % f0.path, loc=f0.loc())
+            a = pv.atoms(c["args"][0])
+            R.check("R18-f", "file-index:" + name, has_field(a, POS, "file"),
+                    "file looked up by the diagnostic's own file index", "%s looks the file up by something other than position.file" % f0.path, loc=f0.loc())
         # line/column come from the same position; rdjson is 1-based
+        one_based = name.startswith("rdjson") or any(v and "diagnostics" == v for v in str_lits_in(f0.body))
         for key, fld in (("line", "line"), ("column", "column")):
-            calls = [c for c in f.walk() if c.get("k") == "MethodCall" and c["method"] == "value" and c["args"] and lit_value(c["args"][0]) == key]
+            calls = [c for c in f.walk() if c.get("k") == "MethodCall" and c["method"] == "value" and len(c["args"]) >= 2 and lit_value(c["args"][0]) == key]
             R.floor("R18-f", "%s writes in %s" % (key, name), len(calls), 1)
             for c in calls:
                 a = pv.atoms(c["args"][1])
-                ok = has_field(a, "nitrogql_ast::base::Pos", fld) and not has_field(a, "nitrogql_ast::base::Pos", "line" if fld == "column" else "column")
-                plus1 = any(x.get("k") == "Binary" and x.get("op") == "+" and lit_value(x["r"]) == "1" for x in subnodes(c["args"][1]))
-                ok = ok and (plus1 == (name == "rdjson_output"))
-                R.check("R18-f", "%s:%s" % (key, name), ok, "`%s` is the diagnostic's %s (%s-based)" % (key, fld, 1 if name == "rdjson_output" else 0),
-                        "%s writes `%s` from the wrong component or base" % (f.path, key), loc=f.loc())
-    # print_positioned_error (human format) also tests builtin before indexing the file store
+                other = "line" if fld == "column" else "column"
+                own, cross = has_field(a, POS, fld), has_field(a, POS, other)
+                plus1 = False
+                for e in _src_exprs(pv, c["args"][1]):
+                    for x in subnodes(e):
+                        if x.get("k") == "Binary" and x.get("op") == "+" and "1" in (lit_value(x["r"]), lit_value(x["l"])):
+                            plus1 = True
+                        if x.get("k") == "MethodCall" and x.get("method") in ("saturating_add", "wrapping_add", "checked_add") and x["args"] and lit_value(x["args"][0]) == "1":
+                            plus1 = True
+                k2 = "%s:%s" % (key, name)
+                if own and not cross and plus1 == one_based:
+                    R.holds("R18-f", k2, "`%s` is the diagnostic's %s (%s-based)" % (key, fld, 1 if one_based else 0), loc=f0.loc())
+                elif not own or plus1 != one_based:
+                    R.violated("R18-f", k2, "%s writes `%s` from the wrong component or base (reads Pos.%s: %s, adds 1: %s, expected %d-based)"
+                               % (f0.path, key, fld, own, plus1, 1 if one_based else 0), loc=f0.loc())
+                else:
+                    R.undecided("R18-f", k2, "`%s` derives from both Pos.line and Pos.column" % key, loc=f0.loc())
+    # the human renderer (print_positioned_error and what it delegates to) also tests builtin before indexing the file store
     ppe = P.fn("nitrogql_error::print_positioned_error")
-    pv = Prov(ppe)
-    R.check("R18-f", "human-builtin-guard", has_field(pv.atoms(ppe.body), "nitrogql_ast::base::Pos", "builtin"),
-            "human renderer handles builtin positions", "print_positioned_error does not test `builtin`", loc=ppe.loc())
+    scope = scope_fns(P, ppe)
+    tests = any((POS, "builtin") in field_reads(g) for g in scope)
+    R.check("R18-f", "human-builtin-guard", tests,
+            "human renderer handles builtin positions", "neither print_positioned_error nor any function it calls in its crate tests `builtin`", loc=ppe.loc())
+
+
+# --------------------------------------------------------------------------------------------------------------- R18-g
+def _operation_checker_scope(P):
+    try:
+        import c03
+        paths = c03.checker_scope(P)
+    except Exception:
+        entry = P.fn("nitrogql_checker::operation_checker::check_operation_document")
+        paths = [p for p in P.reachable([entry]) if p.startswith("nitrogql_checker::") and not P.fns[p].derived]
+    return [P.fns[p] for p in paths if p.startswith(("nitrogql_checker::operation_checker", "nitrogql_checker::common"))]
 
 
 def r18g(P, R):
     """(1) the stage that produces check diagnostics records itself, so the JSON renderer (which prints `check.errors` only if "check"
     was recorded) cannot drop them when check runs implicitly; (2) operation diagnostics are located in the operation document"""
-    out = CLI + "output::CliOutput"
     for fn_name, lit in (("check::run_check", "check"), ("generate::run_generate", "generate")):
-        f = P.fn(CLI + fn_name)
-        recs = [c for c in f.walk() if c.get("k") == "MethodCall" and (call_name(c) or "") == out + "::command_run" and lit in str_lits_in(c["args"][0])]
-        R.check("R18-g", "stage-records-itself:" + lit, len(recs) >= 1, "%s records \"%s\" itself" % (fn_name, lit),
-                "%s no longer records that the `%s` stage ran: `generate` runs the check stage implicitly, and json_output prints `check.errors` "
-                "only when \"check\" was recorded, so a failing run exits 1 with no located diagnostic" % (f.path, lit), loc=f.loc())
-    jo = P.fn(out + "::json_output")
-    gate_lits = {v for c in jo.walk() if c.get("k") == "Binary" and c.get("op") == "==" for v in str_lits_in(c)}
-    R.check("R18-g", "json-gates", {"check", "generate"} <= gate_lits, "json_output gates its sections on the recorded stage names",
-            "json_output gates on %s" % sorted(gate_lits), loc=jo.loc())
+        f0 = P.fn(CLI + fn_name)
+        other = P.fn(CLI + ("generate::run_generate" if lit == "check" else "check::run_check"))
+        f = inlined(P, f0, pred=lambda g: g.path != other.path)
+        recs = [c for c in f.walk() if c.get("k") == "MethodCall" and (call_name(c) or "").endswith("CliOutput::command_run") and lit in str_lits_in(c["args"][0])]
+        anyrec = [c for c in f.walk() if c.get("k") == "MethodCall" and (call_name(c) or "").endswith("CliOutput::command_run")]
+        key = "stage-records-itself:" + lit
+        if recs:
+            R.holds("R18-g", key, "%s records \"%s\" itself" % (fn_name, lit), loc=f0.loc())
+        elif anyrec and not all(str_lits_in(c["args"][0]) for c in anyrec):
+            R.undecided("R18-g", key, "%s records a stage name that is not a literal" % fn_name, loc=f0.loc())
+        else:
+            R.violated("R18-g", key, "%s no longer records that the `%s` stage ran: `generate` runs the check stage implicitly, and json_output prints `check.errors` "
+                       "only when \"check\" was recorded, so a failing run exits 1 with no located diagnostic" % (f0.path, lit), loc=f0.loc())
+    rs, jsonish = renderers(P)
+    jo = rs.get("json_output") or next((g for n, g in sorted(jsonish.items()) if not n.startswith("rdjson")), None)
+    if jo is None:
+        R.undecided("R18-g", "json-gates", "the JSON renderer cannot be identified")
+    else:
+        joi = inlined(P, jo)
+        gate_lits = {v for c in joi.walk() if c.get("k") == "Binary" and c.get("op") == "==" for v in str_lits_in(c)} | \
+                    {c.get("v") for c in joi.walk() if c.get("k") == "PatExpr" and c.get("lk") == "str"} | \
+                    {v for c in joi.walk() if c.get("k") == "MethodCall" and c.get("method") in ("contains", "eq") for a in c["args"] for v in str_lits_in(a)}
+        if {"check", "generate"} <= gate_lits:
+            R.holds("R18-g", "json-gates", "json_output gates its sections on the recorded stage names", loc=jo.loc())
+        else:
+            R.undecided("R18-g", "json-gates", "json_output compares the recorded stages with %s" % sorted(gate_lits), loc=jo.loc())
     # primary positions of operation diagnostics
-    import c03
-    scope = [P.fns[p] for p in c03.checker_scope(P) if p.startswith(("nitrogql_checker::operation_checker", "nitrogql_checker::common"))]
+    scope = _operation_checker_scope(P)
     n = 0
     for f in scope:
         pv = None
